@@ -40,6 +40,7 @@ func (v *Verdict) with(o *sim.Outcome) *Verdict {
 // function of this file and the code.
 type ReplayFile struct {
 	Property  string          `json:"property"`
+	Test      string          `json:"test,omitempty"`
 	Class     string          `json:"class"`
 	Detail    string          `json:"detail"`
 	TraceHash uint64          `json:"trace_hash"`
@@ -120,7 +121,7 @@ func runProp[C any](t *testing.T, id string, gen func(*rapid.T) C, exec func(*te
 			sim.S().Probe("known:" + v.Class)
 			kf := filepath.Join(workDir(), fmt.Sprintf("known-%s-%s-%s.json", id, workerTag(), slug(v.Class)))
 			if _, err := os.Stat(kf); err != nil {
-				writeJSON(kf, ReplayFile{Property: id, Class: v.Class, Detail: v.Detail, TraceHash: v.TraceHash, Trace: v.Trace, Case: raw})
+				writeJSON(kf, ReplayFile{Property: id, Test: t.Name(), Class: v.Class, Detail: v.Detail, TraceHash: v.TraceHash, Trace: v.Trace, Case: raw})
 			}
 			return
 		}
@@ -130,7 +131,7 @@ func runProp[C any](t *testing.T, id string, gen func(*rapid.T) C, exec func(*te
 			// While minimising, a different violation class does not count.
 			return
 		}
-		writeJSON(vio, ReplayFile{Property: id, Class: v.Class, Detail: v.Detail, TraceHash: v.TraceHash, Trace: v.Trace, Case: raw})
+		writeJSON(vio, ReplayFile{Property: id, Test: t.Name(), Class: v.Class, Detail: v.Detail, TraceHash: v.TraceHash, Trace: v.Trace, Case: raw})
 		rt.Fatalf("VIOLATION %s", v.Class)
 	})
 }
@@ -168,8 +169,8 @@ func replayProp[C any](t *testing.T, id, path string, exec func(*testing.T, C) *
 		fmt.Printf("REPLAY-ERROR cannot parse %s: %v\n", path, err)
 		os.Exit(2)
 	}
-	if rf.Property != id {
-		t.Skipf("replay file is for %s", rf.Property)
+	if rf.Property != id || (rf.Test != "" && rf.Test != t.Name()) {
+		t.Skipf("replay file is for %s/%s", rf.Property, rf.Test)
 	}
 	var c C
 	if err := json.Unmarshal(rf.Case, &c); err != nil {
